@@ -233,7 +233,9 @@ spif_tok_show(spif_tok_t self, spif_charptr_t name, spif_str_t buff, size_t inde
              (char) self->escape, (unsigned int) self->escape);
     spif_str_append_from_ptr(buff, tmp);
 
-    SPIF_LIST_SHOW(self->tokens, buff, indent);
+    if (!SPIF_LIST_ISNULL(self->tokens)) {
+        SPIF_LIST_SHOW(self->tokens, buff, indent);
+    }
     indent -= 2;
 
     snprintf((char *) tmp + indent, sizeof(tmp) - indent, "}\n");
